@@ -22,7 +22,7 @@ import random
 import datetime
 import time
 
-from urllib.parse import urlsplit, quote, quote_plus, unquote, unquote_plus
+from urllib.parse import urlsplit, urljoin, quote, quote_plus, unquote, unquote_plus
 
 try:
     import simplejson as json
@@ -962,7 +962,15 @@ class Patron(object):
                 location = sep.join([path, query])
             else:
                 location = path
-            splits = urlsplit(location)
+            # resolve relative reference against url of redirected request RFC 3986 5.2
+            host = self.requester.hostname
+            if host.find(u':') >= 0:  # ipv6
+                host = u'[' + host + u']'
+            base = u"{0}://{1}:{2}{3}".format(self.requester.scheme,
+                                              host,
+                                              self.requester.port,
+                                              self.requester.path)
+            splits = urlsplit(urljoin(base, location))
             hostname = splits.hostname
             port = splits.port
             scheme = splits.scheme
